@@ -39,7 +39,7 @@ def run_condition(path, func, lineno, timeout_s, extra_env=None):
     if m:
         verdict = 'counterexample'
         detail = m.group(1)
-        m2 = re.search(r'when calling (\w+)\((.*)\)', m.group(1))
+        m2 = re.search(r'when calling (\w+)\((.*?)\)(?: \(which (?:returns|raises).*)?$', m.group(1).strip())
         if m2:
             cex = m2.group(2)
     elif 'Not confirmed' in out:
